@@ -4,7 +4,7 @@
    Model: a Go map iteration is a fold over an ITERATION SEQUENCE, any Permutation of the entries.
    `sites` (Gen/Sites_gen.v) is regenerated from /repo's source by tools/sites on every run. *)
 From Coq Require Import List String Bool Arith Permutation.
-From Cog Require Import Model.Sites Model.Perm Model.PermModels Model.Passes Model.Pipeline
+From Cog Require Import Model.Sites Model.Perm Model.PermModels Model.Passes Model.PermPasses Model.Pipeline
   Proofs.PermLemmas Proofs.PermModelsProofs Proofs.PermPassesProofs Proofs.PipelineProofs
   Proofs.PipelineRunProofs Proofs.HeapProofs Proofs.SitesProofs Gen.Sites_gen.
 Import ListNotations.
@@ -58,81 +58,112 @@ Theorem sites_all_discharged_forall : forall s, In s sites -> site_discharged na
 Proof. exact (undischarged_nil_forall named_sites sites sites_all_discharged). Qed.
 Print Assumptions sites_all_discharged_forall.
 
-(* ---------------- modelled Observable sites ---------------------------------------------------- *)
-(* Schemas.Consolidate: same accept/reject and the same schemas whatever the order ... *)
-Theorem consolidate_invariant_up_to_order : forall seq seq', Permutation seq seq' ->
+(* ---------------- the places that WERE order-dependent: the current code and why it sorts --------
+   Each Go function below collects the keys of its map (tools.Keys: map order = the sequence
+   argument) and sorts them, or iterates a slice; the model named after the Go function mirrors
+   that, and is invariant for ALL iteration sequences. The `*_unsorted` models are the same loops
+   ranging over the map directly: they are NOT cog's code; their refutations document why the sort
+   is needed (and are what a revert of the fix would re-introduce). *)
+
+(* Schemas.Consolidate (fix 3c2d3f2): packages in order of first appearance; no map iteration is
+   left, the result is a function of the inputs - see Props/C07.v for what it guarantees *)
+Theorem consolidate_is_a_function_of_the_inputs : forall ss r,
+  consolidate ss = Ok r ->
+  map s_pkg r = map fst (group_by_package ss) /\ (NoDup (map s_pkg ss) -> map s_pkg r = map s_pkg ss).
+Proof. exact consolidate_result_order_proof. Qed.
+Print Assumptions consolidate_is_a_function_of_the_inputs.
+(* the variant ranging over the byPackage map: same accept/reject and same schemas ... *)
+Theorem consolidate_map_order_invariant_up_to_order : forall seq seq', Permutation seq seq' ->
   is_ok (consolidate_seq seq) = is_ok (consolidate_seq seq') /\
   forall r, consolidate_seq seq = Ok r -> exists r', consolidate_seq seq' = Ok r' /\ Permutation r r'.
 Proof. exact consolidate_perm_proof. Qed.
-Print Assumptions consolidate_invariant_up_to_order.
-(* ... but the ORDER of the returned schemas - what `cog inspect` prints - follows the map: the
-   full statement (equal results) is refuted *)
-Theorem consolidate_order_refuted :
+Print Assumptions consolidate_map_order_invariant_up_to_order.
+(* ... but the order of the returned list followed the map *)
+Theorem unsorted_variant_consolidate_map_order_refuted :
   exists ss ord ord', (forall l, Permutation (ord l) l) /\ (forall l, Permutation (ord' l) l) /\
-    consolidate ord ss <> consolidate ord' ss.
-Proof. exact consolidate_order_refuted_proof. Qed.
-Print Assumptions consolidate_order_refuted.
+    consolidate_map_order ord ss <> consolidate_map_order ord' ss.
+Proof. exact consolidate_map_order_refuted_proof. Qed.
+Print Assumptions unsorted_variant_consolidate_map_order_refuted.
 
-(* inferDiscriminatorField *)
-Theorem infer_types_order_irrelevant : forall c st st' sf, Permutation st st' ->
-  inferDiscriminatorField c st sf = inferDiscriminatorField c st' sf.
-Proof. exact infer_types_order_irrelevant_proof. Qed.
-Print Assumptions infer_types_order_irrelevant.
-Theorem infer_discriminator_partial : forall c st sf sf',
+(* inferDiscriminatorField (fix 5b9ef0c) *)
+Theorem inferDiscriminatorField_invariant : forall c st st' sf sf',
+  Permutation st st' -> Permutation sf sf' ->
+  inferDiscriminatorField c st sf = inferDiscriminatorField c st' sf'.
+Proof. exact inferDiscriminatorField_invariant_proof. Qed.
+Print Assumptions inferDiscriminatorField_invariant.
+Theorem unsorted_variant_infer_discriminator_partial : forall c st sf sf',
   (forall a b, In a sf -> In b sf -> exists_in_all_branches c st a = true -> exists_in_all_branches c st b = true -> a = b) ->
-  Permutation sf sf' -> inferDiscriminatorField c st sf = inferDiscriminatorField c st sf'.
-Proof. exact infer_unique_candidate_invariant_proof. Qed.
-Print Assumptions infer_discriminator_partial.
-Theorem infer_discriminator_refuted :
-  exists c st sf sf', Permutation sf sf' /\ inferDiscriminatorField c st sf <> inferDiscriminatorField c st sf'.
-Proof. exact infer_two_candidates_refuted_proof. Qed.
-Print Assumptions infer_discriminator_refuted.
+  Permutation sf sf' -> inferDiscriminatorField_unsorted c st sf = inferDiscriminatorField_unsorted c st sf'.
+Proof. exact infer_unsorted_unique_candidate_invariant_proof. Qed.
+Print Assumptions unsorted_variant_infer_discriminator_partial.
+Theorem unsorted_variant_infer_discriminator_refuted :
+  exists c st sf sf', Permutation sf sf' /\
+    inferDiscriminatorField_unsorted c st sf <> inferDiscriminatorField_unsorted c st sf'.
+Proof. exact infer_unsorted_two_candidates_refuted_proof. Qed.
+Print Assumptions unsorted_variant_infer_discriminator_refuted.
 
-(* FieldsSetDefault *)
-Theorem fields_set_default_partial : forall defs defs' o, Permutation defs defs' ->
+(* FieldsSetDefault.processObject (fix 2c4e6a0): keys sorted by (package, object, field) *)
+Theorem FieldsSetDefault_processObject_invariant : forall seq seq' o,
+  NoDup (map fst seq) -> Permutation seq seq' ->
+  FieldsSetDefault_processObject seq o = FieldsSetDefault_processObject seq' o.
+Proof. exact FieldsSetDefault_processObject_invariant_proof. Qed.
+Print Assumptions FieldsSetDefault_processObject_invariant.
+Theorem unsorted_variant_fields_set_default_partial : forall defs defs' o, Permutation defs defs' ->
   (forall f d1 d2, In d1 defs -> In d2 defs ->
      fieldref_matches (fst d1) o f = true -> fieldref_matches (fst d2) o f = true -> d1 = d2) ->
   fields_set_default_obj defs o = fields_set_default_obj defs' o.
 Proof. exact fields_set_default_unique_invariant_proof. Qed.
-Print Assumptions fields_set_default_partial.
-Theorem fields_set_default_refuted :
+Print Assumptions unsorted_variant_fields_set_default_partial.
+Theorem unsorted_variant_fields_set_default_refuted :
   exists defs defs' o, Permutation defs defs' /\ fields_set_default_obj defs o <> fields_set_default_obj defs' o.
 Proof. exact fields_set_default_two_keys_refuted_proof. Qed.
-Print Assumptions fields_set_default_refuted.
+Print Assumptions unsorted_variant_fields_set_default_refuted.
 
-(* Pipeline.interpolate *)
-Theorem interpolate_partial : forall seq seq' input, Permutation seq seq' ->
+(* Pipeline.interpolate (fix 93a37e5): one pass over the parameter names in sorted order *)
+Theorem interpolate_invariant : forall seq seq' input,
+  NoDup (map fst seq) -> Permutation seq seq' -> interpolate seq input = interpolate seq' input.
+Proof. exact interpolate_invariant_proof. Qed.
+Print Assumptions interpolate_invariant.
+Theorem unsorted_variant_interpolate_partial : forall seq seq' input, Permutation seq seq' ->
   (forall s x y, In x seq -> In y seq -> interp_step (interp_step s x) y = interp_step (interp_step s y) x) ->
-  interpolate seq input = interpolate seq' input.
-Proof. exact interpolate_invariant_if_commute_proof. Qed.
-Print Assumptions interpolate_partial.
-Theorem interpolate_refuted :
-  exists seq seq' input, Permutation seq seq' /\ interpolate seq input <> interpolate seq' input.
-Proof. exact interpolate_nested_refuted_proof. Qed.
-Print Assumptions interpolate_refuted.
+  interpolate_unsorted seq input = interpolate_unsorted seq' input.
+Proof. exact interpolate_unsorted_invariant_if_commute_proof. Qed.
+Print Assumptions unsorted_variant_interpolate_partial.
+Theorem unsorted_variant_interpolate_refuted :
+  exists seq seq' input, Permutation seq seq' /\ interpolate_unsorted seq input <> interpolate_unsorted seq' input.
+Proof. exact interpolate_unsorted_nested_refuted_proof. Qed.
+Print Assumptions unsorted_variant_interpolate_refuted.
 
-(* typescript formatValue on a map *)
-Theorem formatValue_map_refuted :
-  exists seq seq', Permutation seq seq' /\ formatValue_map seq <> formatValue_map seq'.
-Proof. exact formatValue_map_refuted_proof. Qed.
-Print Assumptions formatValue_map_refuted.
+(* typescript formatValue on a map (fix 0a82bdd): orderedmap.FromMap sorts the keys *)
+Theorem formatValue_map_invariant : forall seq seq',
+  NoDup (map fst seq) -> Permutation seq seq' -> formatValue_map seq = formatValue_map seq'.
+Proof. exact formatValue_map_invariant_proof. Qed.
+Print Assumptions formatValue_map_invariant.
+Theorem unsorted_variant_formatValue_map_refuted :
+  exists seq seq', Permutation seq seq' /\ formatValue_map_unsorted seq <> formatValue_map_unsorted seq'.
+Proof. exact formatValue_map_unsorted_refuted_proof. Qed.
+Print Assumptions unsorted_variant_formatValue_map_refuted.
 
-(* ComposeBuilders / ConverterGenerator.FromBuilder: same elements, order follows the map *)
-Theorem ComposeBuilders_invariant_as_set : forall B (kept : list B) compose seq seq', Permutation seq seq' ->
-  Permutation (ComposeBuilders kept compose seq) (ComposeBuilders kept compose seq').
-Proof. exact ComposeBuilders_perm_proof. Qed.
-Print Assumptions ComposeBuilders_invariant_as_set.
-Theorem ComposeBuilders_order_refuted :
+(* ComposeBuilders (fix 6494f77): panel types sorted - the LIST of builders is order-free *)
+Theorem ComposeBuilders_invariant : forall B (kept : list B) compose seq seq',
+  NoDup (map fst seq) -> Permutation seq seq' -> ComposeBuilders kept compose seq = ComposeBuilders kept compose seq'.
+Proof. exact ComposeBuilders_invariant_proof. Qed.
+Print Assumptions ComposeBuilders_invariant.
+Theorem unsorted_variant_ComposeBuilders_order_refuted :
   exists (kept : list string) compose seq seq', Permutation seq seq' /\
-    ComposeBuilders kept compose seq <> ComposeBuilders kept compose seq'.
-Proof. exact ComposeBuilders_order_refuted_proof. Qed.
-Print Assumptions ComposeBuilders_order_refuted.
+    ComposeBuilders_unsorted kept compose seq <> ComposeBuilders_unsorted kept compose seq'.
+Proof. exact ComposeBuilders_unsorted_order_refuted_proof. Qed.
+Print Assumptions unsorted_variant_ComposeBuilders_order_refuted.
+
+(* ---------------- sites that still range over a map and need their own model ------------------- *)
+(* ConverterGenerator.FromBuilder: same mappings, their order follows the map (never exercised
+   by the generated pipelines so far) *)
 Theorem FromBuilder_mappings_invariant_as_set : forall M O (direct : list M) (conv : string * list O -> M) seq seq',
   Permutation seq seq' -> Permutation (FromBuilder_mappings direct conv seq) (FromBuilder_mappings direct conv seq').
 Proof. exact FromBuilder_mappings_perm_proof. Qed.
 Print Assumptions FromBuilder_mappings_invariant_as_set.
 
-(* referenceResolver.packageForToken *)
+(* referenceResolver.packageForToken: first match in map order *)
 Theorem packageForToken_partial : forall seq seq' filename default,
   (forall a b, In a seq -> In b seq -> contains (fst a) filename = true -> contains (fst b) filename = true -> a = b) ->
   Permutation seq seq' -> packageForToken seq filename default = packageForToken seq' filename default.
